@@ -1005,7 +1005,15 @@ class RZILTransformer(Transformer):
 
     def block_item(self, items):
         self.ext.set_token_meta_data("block_item")
-        return items[0]
+        item = items[0]
+        if (
+            isinstance(item, LocalVar)
+            and item.get_name() in self.il_ops_holder.hybrid_effect_dict
+        ):
+            # A value producing operation (call, i++ etc.) is used as statement.
+            # Its effect must be executed at this position.
+            return self.il_ops_holder.hybrid_effect_dict.pop(item.get_name())
+        return item
 
     def chk_hybrid_dep(
         self, effect: Effect, order: HybridSeqOrder = HybridSeqOrder.HYB_THEN_SEQ
